@@ -56,7 +56,7 @@ struct tuple_leaf {
 
     template <typename... Args>
     constexpr tuple_leaf(Args&&... args)
-        : _value{etl::forward<Args>(args)...}
+        : _value(etl::forward<Args>(args)...)
     {
     }
 
